@@ -232,6 +232,7 @@ func ExecArtifacts(s core.Schedule, art map[string]any) *core.Outcome {
 
 // Exec executes a schedule in world W1. It must run inside a synctest bubble.
 func Exec(s core.Schedule) *core.Outcome {
+	crashfs.Yield = core.Yield
 	sc := s.(*Sched)
 	out := core.NewOutcome()
 	w := newWorld(&sc.Cfg, out)
